@@ -36,25 +36,28 @@ Definition parse_endline (b : bytes) : option bytes :=
 Inductive argkind := AStr | AMbox.
 Inductive argval := VStr (v : bytes) | VMbox (name : list N).
 
-(* what Mailbox.parse makes of the astring value v *)
-Definition mbox_of_bytes (v : bytes) : result (list N) :=
-  if bytes_eqb (upper_bytes v) INBOX then Ok INBOX
-  else bind (modutf7_decode v) (fun s => Ok (mailbox_norm s)).
+(* what Mailbox.parse makes of the astring value v; None: NotParseable
+   (modutf7_decode raised UnicodeError) *)
+Definition mbox_of_bytes (v : bytes) : option (list N) :=
+  if bytes_eqb (upper_bytes v) INBOX then Some INBOX
+  else match modutf7_decode v with
+       | Ok s => Some (mailbox_norm s)
+       | _ => None
+       end.
 
-Definition interp (k : argkind) (v : bytes) : result argval :=
+Definition interp (k : argkind) (v : bytes) : option argval :=
   match k with
-  | AStr => Ok (VStr v)
-  | AMbox => bind (mbox_of_bytes v) (fun s => Ok (VMbox s))
+  | AStr => Some (VStr v)
+  | AMbox => option_map VMbox (mbox_of_bytes v)
   end.
 
-(* Space, AString|Mailbox, ..., EndLine.  An exception escaping from
-   modutf7_decode ends the parse at once: [POk (Exc k) _ _]. *)
+(* Space, AString|Mailbox, ..., EndLine *)
 Fixpoint parse_args (kinds : list argkind) (p : sparams) (cs : list bytes) (b : bytes)
-  : pres (result (list argval)) :=
+  : pres (list argval) :=
   match kinds with
   | [] =>
     match parse_endline b with
-    | Some r => POk (Ok []) r cs
+    | Some r => POk [] r cs
     | None => PFail
     end
   | k :: ks =>
@@ -63,12 +66,9 @@ Fixpoint parse_args (kinds : list argkind) (p : sparams) (cs : list bytes) (b : 
     | Some b1 =>
       pbind (parse_astring p cs b1) (fun vr b2 cs2 =>
         match interp k (fst vr) with
-        | Ok a =>
-          pbind (parse_args ks p cs2 b2) (fun ra b3 cs3 =>
-            POk (bind ra (fun l => Ok (a :: l))) b3 cs3)
-        | NotParseable => PFail
-        | Exc e => POk (Exc e) [] cs2
-        | OutOfFuel => POk OutOfFuel [] cs2
+        | Some a =>
+          pbind (parse_args ks p cs2 b2) (fun l b3 cs3 => POk (a :: l) b3 cs3)
+        | None => PFail
         end)
     end
   end.
@@ -99,8 +99,7 @@ Fixpoint lookup (w : bytes) (t : list (bytes * list argkind)) : option (list arg
 
 Inductive command :=
 | CmdInvalid                                    (* InvalidCommand *)
-| Cmd (tag name : bytes) (args : list argval)
-| CmdRaises (k : N).                            (* an exception escapes the parser *)
+| Cmd (tag name : bytes) (args : list argval).
 
 (* Commands.parse, for a table of commands of the modelled shape; a word that
    is not in [table] gives InvalidCommand *)
@@ -120,9 +119,7 @@ Definition parse_command (table : list (bytes * list argkind))
         | None => POk CmdInvalid [] cs
         | Some kinds =>
           match parse_args kinds p cs b3 with
-          | POk (Ok args) rest cs' => POk (Cmd tag name args) rest cs'
-          | POk (Exc e) rest cs' => POk (CmdRaises e) rest cs'
-          | POk _ rest cs' => POk CmdInvalid rest cs'
+          | POk args rest cs' => POk (Cmd tag name args) rest cs'
           | PFail => POk CmdInvalid [] cs
           | PNeed n => PNeed n
           end
@@ -220,3 +217,43 @@ Definition read_command (table : list (bytes * list argkind)) (p : sparams) (s :
   : result (command * bytes * nat) :=
   bind (conn_readline s) (fun ls =>
     reparse_loop (S (length (snd ls))) (parse_command table p) (fst ls) [] (snd ls) 0).
+
+(* ------------------------------------------------- the client's side *)
+(* One argument as a client writes it: spaces, then the value in one of its
+   spellings.  In the byte stream the payload of a synchronizing literal
+   follows its prefix directly (the client sends it after the server's
+   continuation request). *)
+Record sparg := { sa_spaces : nat; sa_sp : spelling; sa_val : bytes }.
+
+Definition arg_wire (a : sparg) : bytes :=
+  repeat SP (sa_spaces a) ++
+  match sa_sp a with
+  | SpLit => lit_prefix false (blen (sa_val a)) ++ sa_val a
+  | sp => spell_line sp (sa_val a)
+  end.
+
+Definition eol_bytes (crlf : bool) : bytes := if crlf then [CR; LF] else [LF].
+
+(* tag, kw spaces, the command word as typed, the arguments, ke spaces, end of line *)
+Definition cmd_wire (tag : bytes) (kw : nat) (w : bytes) (args : list sparg)
+    (ke : nat) (crlf : bool) : bytes :=
+  tag ++ repeat SP kw ++ w ++ flat_map arg_wire args ++ repeat SP ke ++ eol_bytes crlf.
+
+Definition arg_ok (p : sparams) (a : sparg) : Prop :=
+  (1 <= sa_spaces a)%nat /\ spelling_ok p (sa_sp a) (sa_val a) = true.
+
+(* the argument values the command gets: arity must match, mailboxes decode *)
+Fixpoint interp_all (kinds : list argkind) (vs : list bytes) : option (list argval) :=
+  match kinds, vs with
+  | [], [] => Some []
+  | k :: ks, v :: vs' =>
+    match interp k v, interp_all ks vs' with
+    | Some a, Some l => Some (a :: l)
+    | _, _ => None
+    end
+  | _, _ => None
+  end.
+
+(* continuation requests the server sends: one per synchronizing literal *)
+Definition count_sync (args : list sparg) : nat :=
+  length (filter (fun a => match sa_sp a with SpLit => true | _ => false end) args).
